@@ -643,6 +643,11 @@ def present_paths(steps, rng):
     return pres
 
 
+def runs_in_shell(step):
+    """CommandLine::runs_in_shell (/repo 9dba15b): a builtin alone on its line, unless captured AND carrying redirections"""
+    return step_has_builtin_single(step) and not (step["capture"] and step["stages"][0]["redirs"])
+
+
 def step_has_builtin_single(step):
     return len(step["stages"]) == 1 and step["stages"][0]["kind"] == "B"
 
@@ -698,7 +703,7 @@ def judge(out, prop, known):
                                   note="%s oracle fails on the implementation outside the recorded classes" % tag))
     for (main, exp, got) in out.get("status_bad", []):
         st0 = main["stages"][0]
-        if step_has_builtin_single(main) and any(r[1] != "&" and int(r[2:]) in main["unop"] for r in st0["redirs"]):
+        if runs_in_shell(main) and any(r[1] != "&" and int(r[2:]) in main["unop"] for r in st0["redirs"]):
             # a builtin alone on its line ignores a target it cannot open (status of the builtin instead of 1)
             if "builtin-redirect" in known and got == "@x%d" % BUILTINS.get(st0["builtin"], ("", 0))[1]:
                 knowns.append(("builtin-redirect", "builtin with an unopenable target runs anyway: `%s` -> $? = %s" % (
@@ -736,14 +741,13 @@ def expected_files(out):
         if s["role"] != "main":
             continue
         n = len(s["stages"])
-        lone_builtin = step_has_builtin_single(s)
+        lone_builtin = runs_in_shell(s)
         for i, st in enumerate(s["stages"]):
             pos = m["posix"][i]
             touched = [path_name(int(o.split(".")[0]), s["unop"]) for o in pos["opens"]]
             from_bad = st["frm"].startswith("<") and int(st["frm"][1:]) in s["unop"]
             unsure = bool([c for c in pos["cls"] if c != "oos"]) or "oos" in pos["cls"]
             nxt = s["stages"][i + 1] if i + 1 < n else None
-            lost_asis = lone_builtin and s["capture"]
             if not pos["ok"] and (not lone_builtin or s["capture"]):
                 unsure = True              # the diagnostic goes to the stage's current (possibly redirected) stderr
                                            # (an UNCAPTURED builtin alone on its line reports on the shell's own stderr; a captured one
@@ -772,9 +776,7 @@ def expected_files(out):
                     elif a[:1] == "e":
                         se += pat(int(a[1:]))
             elif st["kind"] == "B":
-                so, se = TEXTS.get(st["builtin"], (None, None))
-                # a captured builtin alone on its line: the reference is POSIX (the text follows the redirections); the code
-                # keeps the text in the CommandResult (finding captured-builtin-target-ignored): `alt` is that content
+                so, se = s.get("texts", TEXTS).get(st["builtin"], (None, None))
             else:
                 so, se = b"", NOTFOUND
             for data, sink in ((so, pos["sinks"][1]), (se, pos["sinks"][2])):
@@ -783,8 +785,6 @@ def expected_files(out):
                     if data is None:
                         skip.add(nm)
                     else:
-                        if lost_asis and data:
-                            alt[nm] = content.get(nm) or b""
                         content[nm] = (content.get(nm) or b"") + data
     return content, skip, alt
 
@@ -801,8 +801,6 @@ def check_files(out):
         if nm in skip or "/" in nm or nm.startswith("d"):
             continue
         e, o = exp.get(nm), out["files_full"].get(nm)
-        if e != o and nm in alt and o == alt[nm]:
-            out["lost_builtin_text"].append(nm)       # exactly the recorded wrong behaviour
-        elif e != o:
+        if e != o:
             bad.append((nm, None if e is None else e[:80].decode("latin1"), None if o is None else o[:80].decode("latin1")))
     return bad
